@@ -39,7 +39,11 @@ func (w *watchReader) note(n int) {
 
 func (w *watchReader) Read(p []byte) (int, error) { n, err := w.b.Read(p); w.note(n); return n, err }
 func (w *watchReader) Size() int                  { return w.b.Size() }
-func (w *watchReader) Peek(n int) ([]byte, error) { s, err := w.b.Peek(n); w.note(len(s)); return s, err }
+func (w *watchReader) Peek(n int) ([]byte, error) {
+	s, err := w.b.Peek(n)
+	w.note(len(s))
+	return s, err
+}
 func (w *watchReader) Discard(n int) (int, error) { k, err := w.b.Discard(n); w.note(k); return k, err }
 
 // ---------------------------------------------------------------------------------------------
